@@ -4,6 +4,7 @@ package martian
 
 import (
 	"bytes"
+	"io"
 	"net/http"
 
 	"github.com/google/martian/v3/zzverif/vf"
@@ -169,3 +170,62 @@ func VerifC01CloseDelimited() {
 	vf.Assert(conn.closed >= 1, "connection-closed-when-the-loop-ends")
 	vf.Reach("done")
 }
+
+// echoBody is the response body of a streaming origin: it yields the request
+// body as the origin reads it, so the origin is still reading the request while
+// the proxy is already relaying the response.
+type echoBody struct {
+	src  io.ReadCloser
+	seen *[]byte
+}
+
+func (e *echoBody) Read(p []byte) (int, error) {
+	n, err := e.src.Read(p)
+	*e.seen = append(*e.seen, p[:n]...)
+	return n, err
+}
+func (e *echoBody) Close() error { return nil }
+
+// VerifC01StreamingOrigin: the origin starts answering before it has read the
+// request body and echoes it (upload to a streaming endpoint). Origin and client
+// must both see the whole body, byte for byte, and a second request on the same
+// connection is then served one-to-one.
+func VerifC01StreamingOrigin() {
+	r1 := reqSpec{method: "POST", path: "/up?q=1", hval: "h1"}
+	r1.body = vf.Bytes("req-body", vf.Choice("req-body-len", vf.Param("bodylens")))
+	r1.chunked = vf.Choice("req-chunked", 2) == 1
+	r2 := reqSpec{method: "GET", path: "/b?q=2", hval: "h2"}
+	var segs [][]byte
+	if vf.Choice("pipelined", 2) == 1 {
+		segs = [][]byte{append(r1.wire(), r2.wire()...)}
+	} else {
+		segs = [][]byte{r1.wire(), r2.wire()}
+	}
+	conn := newClientConn("client", true, segs...)
+	var originRead []byte
+	p := NewProxy()
+	seen := 0
+	p.SetRoundTripper(roundTripFunc(func(req *http.Request) (*http.Response, error) {
+		seen++
+		if seen == 1 {
+			return &http.Response{StatusCode: 200, Status: "200 OK", Proto: "HTTP/1.1", ProtoMajor: 1, ProtoMinor: 1,
+				Header: http.Header{"X-B": {"echo"}}, TransferEncoding: []string{"chunked"}, ContentLength: -1,
+				Body: &echoBody{src: req.Body, seen: &originRead}, Request: req}, nil
+		}
+		return rawResponse(resSpec{status: 200, hval: "y", body: []byte("second")}.wire(), req)
+	}))
+	serveConn(p, conn)
+	got := clientView(conn.out.Bytes(), []string{"POST", "GET"})
+	vf.Assert(len(got) == 2 && seen == 2, "client-receives-one-response-per-request")
+	if len(got) != 2 {
+		return
+	}
+	vf.Assert(got[0].ok && got[0].status == 200 && bytes.Equal(got[0].body, r1.body), "client-sees-identical-body")
+	vf.Assert(bytes.Equal(originRead, r1.body), "origin-sees-identical-body")
+	vf.Assert(got[1].ok && got[1].status == 200 && string(got[1].body) == "second", "second-response-correct-and-one-to-one")
+	vf.Reach("done")
+}
+
+type roundTripFunc func(*http.Request) (*http.Response, error)
+
+func (f roundTripFunc) RoundTrip(r *http.Request) (*http.Response, error) { return f(r) }
